@@ -78,6 +78,8 @@ type minterBlockObs struct {
 	panicked bool
 	minted   *big.Int
 	obs      []*big.Int
+	evInfl   string // the Mint event's inflation attribute ("" = no Mint event)
+	qInfl    string // the Inflation query right after the block ("undefined" when it errs)
 }
 
 // runMinterBlocks executes BeginBlocker at each time on a fresh cache context and returns observations.
@@ -123,6 +125,9 @@ func stepMinterBlocks(ta *TestApp, ctx sdk.Context, times []time.Time, denom str
 						a, _ := new(big.Int).SetString(strings.Trim(string(at.Value), "\""), 10)
 						evAmt = a
 					}
+					if string(at.Key) == "inflation" {
+						o.evInfl = strings.Trim(string(at.Value), "\"")
+					}
 				}
 			}
 		}
@@ -140,8 +145,10 @@ func stepMinterBlocks(ta *TestApp, ctx sdk.Context, times []time.Time, denom str
 			r, err := k.Inflation(sdk.WrapSDKContext(bctx), &mintertypes.QueryInflationRequest{})
 			if err != nil {
 				inflClass = bi(0)
+				o.qInfl = mintertypes.UndefinedInflation
 			} else {
 				infl = r.Inflation.BigInt()
+				o.qInfl = r.Inflation.String()
 			}
 		}()
 		h := k.GetAllMinterStateHistory(bctx)
@@ -514,6 +521,11 @@ func minterBlockTerms(rep *Report, c minterCfg, cid int, times []time.Time, obs 
 		tot.Add(tot, o.minted)
 		rep.Eval("C02.amount_nonnegative", o.minted.Sign() >= 0, cid, bi_, fmt.Sprintf("minted %v", o.minted))
 		rep.Eval("C18.mint_event_amount", ev.Cmp(o.minted) == 0, cid, bi_, fmt.Sprintf("event %v supply delta %v", ev, o.minted))
+		if o.evInfl != "" && o.qInfl != "" {
+			// C19: the block's Mint event reports the inflation of the state the block leaves (what the query answers right after it)
+			rep.Eval("C19.mint_event_reports_current_inflation", o.evInfl == o.qInfl, cid, bi_,
+				fmt.Sprintf("the Mint event of the block at %d reports inflation %s, the Inflation query after the block %s", times[bi_].UnixNano(), o.evInfl, o.qInfl))
+		}
 		rep.Eval("C20.inflation_query_no_panic", mo[8].Sign() >= 0, cid, bi_, fmt.Sprintf("the Inflation query panicked at block time %d (supply of the mint denomination: %v)", times[bi_].UnixNano(), mo[7]))
 		// C19: inflation reported after the previous block vs what this block minted
 		seq := mo[2].Int64()
